@@ -18,7 +18,8 @@ right-hand side.
 | accepted ⇒ in the domain ∧ stored ∧ read back | `accepted_sound` (every descriptor; per kind: `int_/byte_/char_/str_/struct_/float_field_accepted_sound`, `array_field_accepted_sound`), `accepted_sound_nonfloat` (no assumption), `accepted_sound_under_rounding_hypotheses`, `model_meets_spec_accepted` |
 | `get (set x v) = canon v` | `spec_readback_is_canon` (from the Spec alone: holds for any observation, model or implementation), `accepted_readback_canon`, `int_field_readback_exact`, `str_field_sound`, `double_field_exact` |
 | nothing else is touched | `accepted_touches_only_the_field`, `unselected_elements_untouched` |
-| validation in force outside disable blocks | `switch_restored`, `switch_on_after_any_program`, `outside_blocks_validated`, `outside_blocks_meet_spec`, `inside_blocks_not_validated`, `log_threads_message` (programs); `validation_restored`, `off_only_inside_disable_block`, `exception_exit_restores`, `switch_spec_holds_on_every_history` (flat event histories) |
+| validation in force outside disable blocks | `switch_restored`, `switch_on_after_any_program`, `outside_blocks_validated`, `outside_blocks_meet_spec`, `inside_blocks_not_validated`, `log_threads_message` (programs); `validation_restored`, `off_only_inside_disable_block`, `exception_exit_restores`, `switch_spec_holds_on_every_history` (the exact behaviour `ctxOk`: compared by the correspondence), `switch_in_force_outside_blocks` / `exact_switch_implies_in_force` (`ctxInForce`, the direction the property states: what PROP evaluates on the implementation) (flat event histories) |
+| ctypes instances | `str_ctypes_array_refused`: an instance of a ctypes char-array class `c_char * m` is never stored into a `String(n)` field (of the field's own class: handed to ctypes unvalidated, whose char-array setter refuses it; of another length: no `str`), validation on or off, every byte unchanged |
 
 Hypotheses that appear: `tyWF` / `valWF` (Spec/ValidatorsExt.lean: facts about Python objects the abstract values do not
 carry - a `bytes` consists of bytes, a ctypes / struct instance has the size of its class, a double has 64 bits, `String(n)`
